@@ -18,9 +18,13 @@ Definition dedup (l : list string) : list string :=
 Definition shutdown_chans : list string :=
   ["c.quit"; "ctx.Done()"; "l.quit"; "s.quit"; "s.ctx.Done()"; "s.mailboxConn.Done()"].
 
+(* a case on a timer channel wakes the select by itself after the timer's duration (the send stream's
+   lingering period after its connection has ended, lockWithContext's polling interval) *)
+Definition is_timer (c : string) : bool := String.prefix "time.After(" c.
+
 Definition covered (row : string * bool * list string) : bool :=
   let '(_, has_default, cases) := row in
-  has_default || existsb (fun c => mem c shutdown_chans) cases.
+  has_default || existsb (fun c => mem c shutdown_chans || is_timer c) cases.
 
 Definition uncovered_selects : list (string * bool * list string) :=
   filter (fun r => negb (covered r)) M.select_table.
